@@ -27,7 +27,13 @@ from .. import gen_graph as G
 from ..oracles import tian_scm as S
 
 PROP = "C17"
-RULE = ("ADMGs with 1-7 nodes (evaluated on SCMs up to 5 nodes in the quick tier, 6 in the thorough tier); every "
+RULE = ("STRUCTURED: districts grown to a prescribed IDENTIFY recursion depth 0-3 (4 in the thorough tier) with outside "
+        "parents Z / descendants, every form of Q[T] (P(T|Z), P(T|Pa), PP, P[Z](T), P[V\\T](T), mixed, redundant "
+        "children, Lemma-1 product, Lemma-4 ratios, top-level Fraction P(T,Z)/P(Z), Sum over descendants), all (<= 4/8 "
+        "sampled) linear extensions; direct calls of the five c-factor routines on V, ancestral sets and the recursion's "
+        "own (A, Q[A]) for every district, every expression form and orders chosen among all linear extensions (one "
+        "putting a variable outside the district last); every single-world probability P_w(T u E | Z) over small graphs "
+        "as candidate Q[T] (kept when it denotes Q[T]).  RANDOM: ADMGs with 1-7 nodes (evaluated on SCMs up to 5 nodes in the quick tier, 6 in the thorough tier); every "
         "district T; every C subset of T inducing a single district (sampled when there are many); 1-3 random linear "
         "extensions (optionally with extra names the graph does not contain); Q[T] given as a Probability P(T|Z) / "
         "population-tagged PP(T|Z) when T is a block of some topological order (Lemma-1 branch), in interventional form "
@@ -44,14 +50,14 @@ RULE = ("ADMGs with 1-7 nodes (evaluated on SCMs up to 5 nodes in the quick tier
 ASSUMPTIONS = [
     "all theorems are about the Lean model Y0.Model.Tian / Y0.Model.TianDsl (tian_id.py after fix 010d659); the tie to the Python is this run's correspondence sampling (structural comparison up to set / multiset order and x*1, x/1; evaluation fall-back on a shared model otherwise)",
     "model class of the theorems and of the oracle: discrete variables, positive rational parameters, independent root latents shared only across bidirected edges (Y0/Spec/Scm.lean); a population tag reads the same single-domain model; G acyclic (MG.Ranked) and well formed (MG.WF)",
-    "tian_sound / cfactor_lemma1_sound / cfactor_sound carry the hypothesis ProbShape when Q[T] (Q[H]) is given as a bare Probability: it must be P_w(T | Z) with children exactly T, all variables in one un-starred world w, and Z, w disjoint from T (Y0/Spec/TianSpec.lean). The Lemma-1 branch dispatches on the TYPE of the expression and never reads its children, so a Probability that equals Q[T] only by numerical coincidence in one model is outside the theorem; the version with the hypothesis quantified over all compatible models instead of ProbShape is OPEN (see the OPEN block in Props/C17.lean). Sum / Product / Fraction inputs carry no such hypothesis",
+    "tian_sound / cfactor_lemma1_sound / cfactor_sound carry the hypothesis ProbShape when Q[T] (Q[H]) is given as a bare Probability: it must be P_w(T u E | Z) - every member of T a child, further children E redundant (E inside Z u w), all variables in one un-starred world w, and Z, w disjoint from T (Y0/Spec/TianSpec.lean; weakened in round 2: redundant children allowed, Z and w need not be nodes). The Lemma-1 branch dispatches on the TYPE of the expression and reads only the parents and the children named in T, so a Probability that equals Q[T] only by numerical coincidence in one model is outside the theorem. cfactor_output_shape + tian_sound_ctftr_caller show that the only caller inside y0 (transport_district_intervening_on_parents) always supplies the shape: its Q[T] is the output of compute_c_factor. The version with the hypothesis quantified over all compatible models instead of ProbShape is OPEN (see the OPEN block in Props/C17.lean: believed true for the single-world environment M.env G; the harness generator semP enumerates every single-world Probability over small graphs, keeps those that denote Q[T] and checks IDENTIFY on them on every run). Sum / Product / Fraction inputs carry no such hypothesis",
     "starred variables / starred intervention subscripts (+X, counterfactual values) inside a Probability given as Q[T] are outside ProbShape; the harness does not generate them",
     "completeness ('None only when Q[C] is not identifiable from Q[T]') is not part of the property and not claimed",
     "set iteration order (frozenset of Variables) only affects the order of factors in a Product and of parents in a population-tagged Probability; both are compared as multisets / sets; Python's sorted() ties are modelled by a stable insertion sort",
     "graphs whose exact evaluation would need more than ~2e5 latent x observed assignments (dense bidirected parts on 6-7 nodes) are checked by correspondence and for exceptions only, not by evaluation",
 ]
 EXHAUSTIVE = {"quick": False, "thorough": False}
-LEANCHECK_MODULES = ["Y0.Model.Tian", "Y0.Model.TianDsl", "Y0.Lemmas.QFactor", "Y0.Lemmas.TianIdentify", "Y0.Lemmas.TianTotal", "Y0.Props.C17"]
+LEANCHECK_MODULES = ["Y0.Model.Tian", "Y0.Model.TianDsl", "Y0.Lemmas.QFactor", "Y0.Lemmas.TianIdentify", "Y0.Lemmas.TianTotal", "Y0.Lemmas.TianCallers", "Y0.Props.C17"]
 
 OPS = ["identify", "c_factor", "lemma1", "lemma4", "low_index", "ancestral"]
 
@@ -1160,7 +1166,9 @@ MANIFEST = {
              "exact-rational SCM oracle (Q[C] as the distribution under do(V\\C)) evaluates every returned "
              "expression at every assignment; that oracle found the defect fixed in 010d659 (Lemma 1 dropped "
              "intervention subscripts). One clause is narrower than the property: a bare Probability given as Q[T] must "
-             "have the shape P_w(T | Z) (hypothesis ProbShape)."),
+             "have the shape P_w(T u E | Z), E redundant (hypothesis ProbShape); cfactor_output_shape and "
+             "tian_sound_ctftr_caller show that the one caller inside y0 (Algorithm 4 of ctf-TR: compute_c_factor "
+             "followed by IDENTIFY) always supplies it."),
     "note": ("Trusted: Lean kernel; axioms propext/Classical.choice/Quot.sound; the specifications Y0/Spec/{Prob,Sem,Scm,"
              "TianSpec}.lean (model class: discrete, positive, independent root latents); the hand-written model of "
              "tian_id.py and of the dsl.py constructors it uses, tied to the code by sampling; networkx/sorted/frozenset "
